@@ -8,6 +8,7 @@ EXPLANATION = (
     "and in handle_last_will; handle_last_will publishes exactly the removed entry (topic, payload, retain, qos come from it), so a will can fire at most once per registration; "
     "(R-C16-fire) in server::broker::remote every path after RemoteLink::new succeeded reaches the will wait (timeout on will_rx), Event::PublishWill is sent only under publish_will, "
     "and Event::Disconnect is sent unless the link ended with remote::Error::Link (router-initiated). "
+    "(R-C16-wake) after appending the will, handle_last_will drains every parked waiter and reschedules it (shared with R-C01-wake); "
     "(R-C16-key) the keys agree: every link's Incoming and Outgoing buffers are created with Connection::new(..).client_id (tenant prefix included), and the will table is keyed by those client_id fields; "
     "NOT decided: ordering of PublishWill against Disconnect processing in the router channel; delay timing.")
 ASSUMPTIONS = ["rustc MIR construction is correct"]
@@ -21,6 +22,17 @@ def run(ctx):
     ctx.guarded("R-C16-register", register, ctx, prog)
     ctx.guarded("R-C16-fire", fire, ctx, prog)
     ctx.guarded("R-C16-key", key_agreement, ctx, prog)
+    ctx.guarded("R-C16-wake", will_wakes_subscribers, ctx, prog)
+
+
+def will_wakes_subscribers(ctx, prog):
+    """'publishes the will to the current matching subscribers': after the will is appended, handle_last_will drains
+    ALL parked waiters of the logs it appended to and reschedules each (shared with R-C01-wake)"""
+    from . import c01
+    from .common import Relabel
+    view = Relabel(ctx, "R-C16-wake", lambda fn, inst: "handle_last_will" in fn)
+    c01.wake(view, prog)
+    ctx.floor("R-C16-wake", "verdicts about handle_last_will's notification drain", view.kept, 2)
 
 
 def register(ctx, prog):
